@@ -376,3 +376,174 @@ def c04_5(R):
             R.ok("flush=>fits-window", sf.name, ",".join(conds))
         else:
             R.fail([sf.name, "pop_front-not-guarded", "guards=" + ",".join(conds)], "send_front_if_fits pops the front element without checking that it fits the window / that a contiguous front exists", where=t.where(), instance="flush=>fits-window")
+
+
+SACK_ADAPTERS = ("std::iter::Iterator::skip", "std::iter::Iterator::take", "std::iter::Iterator::step_by", "std::iter::Iterator::rev", "std::iter::Iterator::filter",
+                 "std::iter::Iterator::skip_while", "std::iter::Iterator::take_while", "std::iter::Iterator::chain", "std::iter::IntoIterator::into_iter", "std::iter::Iterator::by_ref")
+
+
+@rule("C04.6", ["C04", "C06", "C01"], ["E4", "E2", "E7"], "receiver and sender agree on what a selective-ACK bit means",
+      "Producer (OutOfOrderQueue::selective_ack): bit i is set iff slot filled_front + 1 + i of the reassembly queue is occupied - the range starts at filled_front + 1 (the slot after the first hole), is "
+      "enumerated without any shifting adapter, the closure yields the unshifted index exactly for non-default slots, and SelectiveAck::new sets bit idx to true. Consumer (Segments::remove_up_to_ack): bit i "
+      "is applied to the segment with sequence number ack_nr + 2 + i - sack_start = ack_nr + 2, the segment iterator is advanced by (sack_start - first_seq_nr) when that is >= 0 and the bit iterator by its "
+      "negation otherwise, the pair handed to the marking closure is (segment, bit) of the same zip item, and a segment is marked delivered only under bit = true. The two offsets agree: slot "
+      "filled_front + k holds sequence number ack_nr + 1 + k, so producer start (+1) + 1 = consumer start (+2). A disagreement marks an undelivered segment delivered (never retransmitted: lost bytes) "
+      "or keeps retransmitting delivered ones.")
+def c04_6(R):
+    F = R.facts
+    # ---------------- producer
+    sa = R.body("stream_rx::OutOfOrderQueue::selective_ack")
+    rng = [t for t in sa.calls() if call_on_field(sa, t, ("VecDeque::range",), "OutOfOrderQueue.data")]
+    R.require(len(rng) == 1, "data.range(..) in OutOfOrderQueue::selective_ack")
+    rg = trace(sa, rng[0].args[1])
+    kp = None
+    if rg.kind == "rv" and rg.root[1].rv.kind == "agg" and rg.root[1].rv.j.get("adt", "").endswith("RangeFrom"):
+        base, kp = int_affine(sa, rg.root[1].rv.ops[0])
+        if base.last_field != "OutOfOrderQueue.filled_front":
+            kp = None
+    if kp == 1:
+        R.ok("sack-producer-start", sa.name, "bits describe data[filled_front + 1 ..]")
+    else:
+        R.fail([sa.name, "sack-range-start", "filled_front%+d" % kp if kp is not None else rg.describe()[:50]], "the selective ACK no longer starts at the slot after the first hole (filled_front + 1): every bit is shifted", where=rng[0].where(), instance="sack-producer-start")
+    news = [t for t in sa.calls() if call_matches(t, ("raw::selective_ack::SelectiveAck::new",))]
+    R.require(len(news) == 1, "SelectiveAck::new in selective_ack")
+    it = trace(sa, news[0].args[0], extra_transparent=())
+    chain_ok = False
+    clo = None
+    if it.kind == "call" and call_matches(it.root[1], ("Iterator::filter_map",)):
+        fm = it.root[1]
+        inner = trace(sa, fm.args[0], extra_transparent=())
+        ct = trace(sa, fm.args[1])
+        if ct.kind == "rv" and ct.root[1].rv.kind == "agg" and ct.root[1].rv.j.get("ak") == "closure":
+            clo = F.body(ct.root[1].rv.j["closure"])
+        if inner.kind == "call" and call_matches(inner.root[1], ("Iterator::enumerate",)):
+            src = trace(sa, inner.root[1].args[0], extra_transparent=())
+            chain_ok = src.kind == "call" and src.root[1] is rng[0]
+    if chain_ok and clo is not None:
+        R.ok("sack-producer-chain", sa.name, "range(start..).enumerate().filter_map(..) with nothing in between")
+        okc = True
+        nsome = 0
+        for ra, cls in ret_assignments(clo):
+            descs = [(c, truth) for c, truth, d, *_ in controlling(clo, ra.bb)]
+            dflt = [truth for c, truth in descs if c.kind == "call" and call_matches(c.call, ("stream_rx::ooq_slot_is_default",))]
+            if cls.startswith("Some("):
+                nsome += 1
+                tt = None
+                if isinstance(ra, Stmt) and ra.rv.kind == "agg" and ra.rv.ops:
+                    tt, k = int_affine(clo, ra.rv.ops[0])
+                if not (tt is not None and k == 0 and tt.kind == "param" and tt.root[1] == 2 and tt.fields == ["tuple.0"] and dflt == [False]):
+                    okc = False
+            elif cls == "None":
+                if dflt != [True]:
+                    okc = False
+            else:
+                okc = False
+        if okc and nsome >= 1:
+            R.ok("sack-bit=occupied-slot", clo.name, "yields the unshifted enumerate index exactly for non-default slots")
+        else:
+            R.fail([sa.name, "sack-filter-closure"], "the selective-ACK bit for slot i is no longer 'slot start+i is occupied' (index shifted or predicate inverted)", where=clo.where(), instance="sack-bit=occupied-slot")
+    else:
+        R.fail([sa.name, "sack-iterator-chain", it.describe()[:60]], "the selective-ACK index iterator is no longer data.range(start..).enumerate().filter_map(..): an extra adapter shifts or drops indices", where=news[0].where(), instance="sack-producer-chain")
+    nw = R.body("raw::selective_ack::SelectiveAck::new")
+    sets = [(b2, t) for b2 in [nw] + F.closures_of(nw.name) for t in b2.calls() if (t.resolved or "").endswith("::set") and len(t.args) == 3]
+    R.floor("bit set sites in SelectiveAck::new", len(sets), 1)
+    for b2, t in sets:
+        bt, k = int_affine(b2, t.args[1])
+        val = t.args[2]
+        if k == 0 and val.kind == "const" and val.scalar == 1:
+            R.ok("sack-new-sets-bit[idx]", b2.name)
+        else:
+            R.fail([nw.name, "set(idx%+d,%s)" % (k, val.scalar if val.kind == "const" else "?")], "SelectiveAck::new no longer sets exactly bit idx for each yielded index", where=t.where(), instance="sack-new-sets-bit[idx]")
+    # ---------------- consumer
+    ru = R.body("stream_tx_segments::Segments::remove_up_to_ack")
+    subs = []
+    for t in ru.calls():
+        if call_matches(t, ("Sub::sub",)) and len(t.args) == 2:
+            a0, k0 = int_affine(ru, t.args[0])
+            a1 = trace(ru, t.args[1])
+            if a0.last_field == "UtpHeader.ack_nr" and k0 != 0 and a1.kind == "call" and call_matches(a1.root[1], ("stream_tx_segments::Segments::first_seq_nr",)):
+                subs.append((t, k0))
+    R.require(len(subs) == 1, "sack_start_offset = (ack_nr + k) - first_seq_nr in remove_up_to_ack")
+    sso, kc = subs[0]
+    if kc == 2:
+        R.ok("sack-consumer-start", ru.name, "bit 0 <-> sequence number ack_nr + 2")
+    else:
+        R.fail([ru.name, "sack_start", "ack_nr%+d" % kc], "the sender applies selective-ACK bit 0 to sequence number ack_nr%+d instead of ack_nr+2" % kc, where=sso.where(), instance="sack-consumer-start")
+    if kp is not None and kp + 1 == kc:
+        R.ok("sack-offsets-agree", "producer +%d, consumer +%d" % (kp, kc), "slot filled_front+k <-> seq ack_nr+1+k")
+    elif kp is not None:
+        R.fail(["sack-offsets-disagree", "producer=filled_front%+d" % kp, "consumer=ack_nr%+d" % kc], "receiver and sender disagree by %d on which packet a selective-ACK bit names" % (kc - kp - 1), where=sso.where(), instance="sack-offsets-agree")
+
+    def is_sso(op, negated):
+        """operand is `sack_start_offset as usize` (negated: `(-sack_start_offset) as usize`)"""
+        t = trace(ru, op)
+        if negated:
+            if t.kind == "rv" and t.root[1].rv.kind == "un" and t.root[1].rv.op == "Neg" and not t.fields:
+                t = trace(ru, t.root[1].rv.ops[0])
+            else:
+                return False
+        return t.kind == "call" and t.root[1] is sso and not t.fields
+    zips = [t for t in ru.calls() if call_matches(t, ("Iterator::zip",))]
+    R.floor("zip(segments, sack bits) sites", len(zips), 2)
+    seen = set()
+    for z in zips:
+        left = trace(ru, z.args[0], extra_transparent=SACK_ADAPTERS)
+        right = trace(ru, z.args[1], extra_transparent=SACK_ADAPTERS)
+        l_ok = left.kind == "call" and call_on_field(ru, left.root[1], ("VecDeque::iter_mut",), "Segments.segments")
+        r_ok = right.kind == "call" and call_matches(right.root[1], ("raw::selective_ack::SelectiveAck::iter",))
+        lad = [s for s in left.steps if isinstance(s, Term) and s.kind == "call" and s.callee in SACK_ADAPTERS and not call_matches(s, ("IntoIterator::into_iter",))]
+        rad = [s for s in right.steps if isinstance(s, Term) and s.kind == "call" and s.callee in SACK_ADAPTERS and not call_matches(s, ("IntoIterator::into_iter",))]
+        # the sign of the offset on the path to this zip
+        nonneg = neg = False
+        for c, truth, d, *_ in controlling(ru, z.bb):
+            for r_, x_, y_ in implied(c, truth):
+                if r_ == "le" and x_.kind == "const" and x_.scalar == 0 and (lambda t: t.kind == "call" and t.root[1] is sso)(trace(ru, y_)):
+                    nonneg = True
+                if r_ == "lt" and y_.kind == "const" and y_.scalar == 0 and (lambda t: t.kind == "call" and t.root[1] is sso)(trace(ru, x_)):
+                    neg = True
+        shape = "L:%s R:%s sign:%s" % (",".join(short_callee(s.resolved) for s in lad) or "-", ",".join(short_callee(s.resolved) for s in rad) or "-", "+" if nonneg else "-" if neg else "?")
+        good = False
+        if l_ok and r_ok and nonneg and not rad and len(lad) == 1 and call_matches(lad[0], ("Iterator::skip",)) and is_sso(lad[0].args[1], False):
+            good = True
+            seen.add("+")
+        if l_ok and r_ok and neg and not lad and len(rad) == 1 and call_matches(rad[0], ("Iterator::skip",)) and is_sso(rad[0].args[1], True):
+            good = True
+            seen.add("-")
+        if good:
+            R.ok("sack-alignment", "offset %s 0" % (">=" if nonneg else "<"), shape)
+        else:
+            R.fail([ru.name, "sack-zip-alignment", shape], "segments and selective-ACK bits are paired with the wrong alignment (%s): bits are applied to the wrong sequence numbers" % shape, where=z.where(), instance="sack-alignment")
+    for sgn in ("+", "-"):
+        if sgn not in seen and len(zips) >= 2:
+            R.fail([ru.name, "sack-zip-alignment", "no-branch-for-offset%s" % (">=0" if sgn == "+" else "<0")], "one of the two alignment cases of the selective ACK is gone", where=ru.where(), instance="sack-alignment")
+    # the marking closure: (segment, bit) of the same item; delivered only under bit = true
+    marks = []
+    for cb in F.closures_of(ru.name):
+        for s in cb.stmts():
+            if written_field(cb, s) == "Segment.is_delivered":
+                marks.append((cb, s))
+    R.floor("is_delivered = true sites under SACK processing", len(marks), 1)
+    for cb, s in marks:
+        bit = False
+        for c, truth, d, *_ in controlling(cb, s.bb):
+            if c.kind in ("var", "multi", "field") and truth:
+                tt = c.trace
+                if tt.kind == "param" and tt.root[1] == 3 and not tt.fields:
+                    bit = True
+        val_ok = s.rv.kind == "use" and s.rv.ops[0].kind == "const" and s.rv.ops[0].scalar == 1
+        if bit and val_ok:
+            R.ok("sacked=>bit-set", cb.name, "is_delivered = true only under is_sacked")
+        else:
+            R.fail([ru.name, "is_delivered=true", "not-under(bit=true)"], "a segment is marked delivered without its selective-ACK bit being set: it will never be retransmitted", where=s.where(), instance="sacked=>bit-set")
+        calls = [t for t in ru.calls() if t.resolved == cb.name]
+        R.floor("calls of the marking closure", len(calls), 2)
+        for t in calls:
+            tup = trace(ru, t.args[1])
+            okpair = False
+            if tup.kind == "rv" and tup.root[1].rv.kind == "agg" and len(tup.root[1].rv.ops) == 2:
+                a, b_ = [trace(ru, o, extra_transparent=("std::ops::Try::branch",)) for o in tup.root[1].rv.ops]
+                okpair = a.fields[-1:] == ["tuple.0"] and b_.fields[-1:] == ["tuple.1"] and a.root[:2] == b_.root[:2]
+            if okpair:
+                R.ok("marking-closure(segment,bit)", "same zip item")
+            else:
+                R.fail([ru.name, "marking-closure-args"], "the marking closure is not called with (segment, bit) of one zip item", where=t.where(), instance="marking-closure(segment,bit)")
